@@ -235,11 +235,18 @@ impl<T: Qcow2IoOps> Qcow2Dev<T> {
 
         let mut discard = None;
         let cluster_lock = {
-            let cls_map = self.new_cluster.read().await;
+            // Never wait for the per-cluster lock with the map's read guard
+            // held: a flush which is zeroing this cluster keeps the lock
+            // until it has removed the cluster from the map, which needs the
+            // map's write lock.
+            let cluster = {
+                let cls_map = self.new_cluster.read().await;
+                cls_map.get(&key).cloned()
+            };
             // keep this cluster locked, so that concurrent discard can
             // be avoided
 
-            match cls_map.get(&key) {
+            match cluster {
                 Some(cluster) => {
                     let mut lock = cluster.write().await;
 
